@@ -123,6 +123,13 @@ class FStringRules:
 
     def p_fstring_conversion(self, p):
         """fstring_conversion : BANG NAME"""
+        if p[2] not in ("r", "s", "a"):
+            s1 = p.slice[1]
+            self._set_error(
+                f"f-string: invalid conversion character {p[2]!r}: "
+                "expected 's', 'r', or 'a'",
+                self.currloc(s1.lineno, s1.lexpos),
+            )
         p[0] = ord(p[2])
         # Preserve the '!' position so self-documenting f-strings (f"{x=!r}")
         # can locate the end of the verbatim debug-text region.
